@@ -168,3 +168,12 @@ func SortSliceStub(x interface{}, less func(i, j int) bool) {
 // StepBudget cuts the current path after n more interpreter steps (an unwinding assumption: what lies
 // beyond is reported as outside the bound, never as success of an assertion). No-op natively.
 func StepBudget(n int) {}
+
+// UseOverrides activates the harness-package functions VerifOverride_<group>__<name> (each paired with a
+// string constant VerifOverrideTarget_<group>__<name> naming the replaced function) for the rest of the path.
+// Natively overrides do not exist: harnesses that need them are replayed by other means.
+func UseOverrides(group string) {}
+
+// MustReturnWithin(n) obliges the code that follows to reach MustReturnWithin(0) within n interpreter steps;
+// otherwise the engine reports non-termination (a violation, replayed natively as a test timeout). No-op natively.
+func MustReturnWithin(n int) {}
